@@ -13,7 +13,7 @@ MAX = I64 - 1
 MIN = -I64
 ARITH = ["+", "-", "*", "/", "%"]
 CMP = ["<", "<=", ">", ">=", "==", "!="]
-FORMS = ["plain", "var", "elem", "prop", "assign", "shadow-param", "shadow-block"]
+FORMS = ["plain", "var", "elem", "prop", "assign", "shadow-param", "shadow-block", "compact", "compact-var"]
 
 
 def in_i64(n):
@@ -60,6 +60,12 @@ def op_lines(a, op, b, form):
         return [f"xs[0] = {A}", f"xs[0] {op}= {B}", "print(xs[0])"]
     if form == "prop":
         return [f"o.k = {A}", f"o.k {op}= {B}", "print(o.k)"]
+    if form == "compact":
+        # no blank anywhere: `x--5` is `x - (-5)`, `xs[0]*-3` is `xs[0] * (-3)` — operators are single tokens and a `-` in front
+        # of a literal where an operand can start is its sign
+        return [f"xs[0] = {A}", f"print(xs[0]{op}{B})"]
+    if form == "compact-var":
+        return [f"x = {A}", f"print(x{op}{B})"]
     if form == "shadow-param":
         # the target is a parameter with the name of an outer variable: the update stays in the parameter
         return ["x = 77", "{", "    fn sp(x) {", f"        x {op}= {B}", "        print(x)", "        return 0", "    }", f"    sp({A})", "}",
